@@ -119,6 +119,21 @@ CHECKS = {
         technique="Lean 4 proof (round-trip and padding laws by induction on digit lists) + exhaustive boundary-integer x "
                   "format table run end-to-end",
         ref="DESIGN.md §6 C16"),
+    "C09": dict(
+        text="Lean 4 theorems (CbProps/C09.lean) on CbRef: every store path to a const object (the object, an element, a "
+             "member, an element of a member; plain, compound, ++/--) is rejected by the single store primitive; a rejected "
+             "store to a const local leaves the whole state unchanged; a const GLOBAL keeps its value through every "
+             "statement, loop and (recursive) call of every program at every fuel (instance of allPres); const parameters "
+             "are bound as const cells. Tie: the full matrix const kind (local/global/parameter scalars of 9 types, "
+             "local/global arrays, struct) x mutation path, pointer/reference programs judged by the property's own wording, "
+             "and random const-rich core programs, model vs interpreter.",
+        note="Pointers and reference parameters are not in the Lean model (their cases have the direct oracle 'rejected'); "
+             "the invariant for const LOCALS is proved per store and per call (C08 call_preserves_caller_locals), not as "
+             "one induction. Listed findings: ++/-- on const, &const into a mutable pointer, const via T&, member store "
+             "through pointer-to-const struct.",
+        technique="Lean 4 proof (const rejection at the store primitive; whole-evaluator invariant for const globals) + "
+                  "exhaustive kind x path matrix",
+        ref="DESIGN.md §6 C09"),
 }
 
 PENDING = {}
